@@ -886,6 +886,10 @@ class Interp(object):
     if site in WEAK_SITES:
       from .models import WeakContainer
       return WeakContainer(site)
+    if not n.keys:
+      h = self.ext.get(('new_dict', fr.func.qualname if fr.func else None))
+      if h is not None:
+        return h(self)
     d = DictLit({})
     d.site = site
     for k, v in zip(n.keys, n.values):
